@@ -1331,17 +1331,16 @@ Result execIntegralRange(const std::string& op, long f, long t, const std::vecto
       const std::string where = "iterators at the values " + std::to_string(x) + " and " + std::to_string(y) + " of the range [" +
                                 std::to_string(f) + "," + std::to_string(t) + ")";
       if (eq != (d == 0) || ne != (d != 0)) note(err, "== / != of the " + where + " gave " + b2(eq) + " / " + b2(ne));
-      // the IteratorFacade documents it1 < it2 as (it1 - it2) < 0: for a transformed range the order is judged only
-      // where difference_type can hold the distance (see design_notes/C16.md, round four, finding F1)
-      const bool judgeOrder = (op == "itcmp") || repr;
-      if (judgeOrder) {
+      // the order of the positions, whatever their distance (for the transformed range: repaired by
+      // fixes/C16_facade_order_by_base.patch; before, the facade took the sign of the wrapping difference)
+      {
         if (lt != (d < 0)) note(err, "operator< of the " + where + " gave " + b2(lt));
         if (le != (d <= 0)) note(err, "operator<= of the " + where + " gave " + b2(le));
         if (gt != (d > 0)) note(err, "operator> of the " + where + " gave " + b2(gt));
         if (ge != (d >= 0)) note(err, "operator>= of the " + where + " gave " + b2(ge));
-      } else stat("wide_tcmp_order_not_judged_distance_exceeds_difference_type");
+      }
       // in every case: a strict order on the pair
-      if (op == "itcmp" && ((lt && gt) || (lt && eq) || (gt && eq) || !(lt || gt || eq) || le == gt || ge == lt))
+      if (((lt && gt) || (lt && eq) || (gt && eq) || !(lt || gt || eq) || le == gt || ge == lt))
         note(err, "the comparisons of the " + where + " do not form a strict order");
       if (repr ? (I128)dd != d : dd != wrapD(d)) note(err, "difference of the " + where + " is " + std::to_string(dd));
       stat(std::string("wide_") + op + (d == 0 ? "_equal" : repr ? "_representable" : "_beyond_difference_type"));
